@@ -382,7 +382,7 @@ def main(chk, args):
     build = common.build_and_audit("C03")
     if not build.driver_ok:
         chk.finish(build, RULE)
-    n = 45 if chk.tier == "quick" else 500
+    n = chk.scale(45 if chk.tier == "quick" else 500)
     for _ in range(n):
         run_case(chk, gen_case(chk.rng, chk.tier))
     for _ in range(4 if chk.tier == "quick" else 40):
